@@ -523,7 +523,10 @@ pub fn c05_eval(hm: &[Op], injected: &[Injected], dist: Option<&mut Dist>) -> Ve
         }
         if let Status::Rejected(m) = &out.status {
             let muts: Vec<String> = out.events.iter().filter(|e| is_mutation(e)).map(ev_string).collect();
-            if !muts.is_empty() {
+            // C05 puts one case out of scope: brc20_initialise reporting an unreachable Bitcoin node
+            // after it has created the genesis block is an environment error
+            let out_of_scope = matches!(op, Op::Initialise { .. }) && m.starts_with("Bitcoin RPC status check failed");
+            if !muts.is_empty() && !out_of_scope {
                 fs.push(finding(format!("c05:rejected_mutates:{}:{}", op.kind(), err_class(m)),
                     format!("{} was answered with the error \"{}\" after it had changed the store ({} mutation events)", op.kind(), m, muts.len()),
                     json!({"op_index": i, "op": resolved, "message": m, "mutation_events": muts.len(), "first_events": muts.iter().take(8).collect::<Vec<_>>()})));
